@@ -5,6 +5,8 @@
 #   4. demo fails with it; then runs the listed checks (default: the ID's own) against the patched
 #   worktree via VERIF_REPO and reports their exit codes. The worktree is removed afterwards.
 set -u
+# one confirmation at a time: they share a cargo target directory
+exec 9>/tmp/seed-confirm.lock; flock 9
 INBOX=$1; ID=$2; K=$3; shift 3
 CHECKS=${@:-$ID}
 WT=/tmp/wt-confirm-$ID-$K
@@ -32,4 +34,4 @@ for C in $CHECKS; do
   echo "CHECK $C on $ID-$K exit=$RC $(grep -m1 -A1 '^VIOLATION' /tmp/seed-$ID-$K.check-$C.log | tr '\n' ' ' | cut -c1-260)"
 done
 git -C /repo worktree remove --force $WT
-rm -rf /verif/target/alt-*/
+rm -rf /verif/target/alt-$(python3 -c "import hashlib,os;print(hashlib.sha1(os.path.realpath('$WT').encode()).hexdigest()[:10])")
